@@ -122,6 +122,32 @@ Definition attr_deprecated (v : ver) (name : string) : bool :=
 Definition template_gate (v : ver) (names : list string) : option string :=
   find (fun n => negb (attr_supported v n)) names.
 
+(* _process_template_attribute as it is written: ONE walk over the attributes in order; at each position first the
+   version gate, then the multiplicity rules (multivalued: a repeated name needs an index; single-valued: no non-zero
+   index, no second instance).  The first position that fails decides the error, so a duplicate in front of a later
+   attribute is reported as the duplicate.  An item: (name, carries an index, that index is non-zero). *)
+Definition attr_multivalued (name : string) : bool :=
+  match find_rule name with Some r => ar_multivalued r | None => false end.
+
+Inductive tmpl_result := TOk | TUnsupported (name : string) | TOther.
+
+Definition tmpl_item := (string * bool * bool)%type.
+Definition ti_name (i : tmpl_item) : string := fst (fst i).
+
+Fixpoint template_walk (v : ver) (seen : list string) (items : list tmpl_item) : tmpl_result :=
+  match items with
+  | [] => TOk
+  | (n, has_ix, ix_nz) :: rest =>
+      if negb (attr_supported v n) then TUnsupported n
+      else if attr_multivalued n then
+        if negb has_ix && existsb (String.eqb n) seen then TOther        (* "Attribute index missing from multivalued attribute." *)
+        else template_walk v (n :: seen) rest
+      else
+        if has_ix && ix_nz then TOther                                    (* "Non-zero attribute index found ..." *)
+        else if existsb (String.eqb n) seen then TOther                  (* "Cannot set multiple instances of the ... attribute." *)
+        else template_walk v (n :: seen) rest
+  end.
+
 (* Locate: the attribute filters of the request.  Whether _process_locate puts the names through
    is_attribute_supported before filtering (and refuses with InvalidField) is read from the source
    (PKGen.Versions.locate_filter_checked; true since fix 1a2a215). *)
